@@ -299,6 +299,21 @@ def run(case, res):
             if d:
                 return Violation('writer_fault', 'behaviour_changed_by_failed_export',
                                  {'call': name, 'k': k}, ['call:' + name])
+            if name != 'output_to_firrtl':
+                # the retry with a good file object: the same bytes as before the failure
+                again = io.StringIO()
+                try:
+                    with transforms.quiet():
+                        fn(again)
+                except (pyrtl.PyrtlError, pyrtl.PyrtlInternalError) as e:
+                    return Violation('writer_fault', 'retry_after_failed_export_refused',
+                                     {'call': name, 'k': k, 'exc': repr(e)[:200]}, ['call:' + name])
+                if again.getvalue() != buf.getvalue():
+                    return Violation('writer_fault', 'text_differs_after_failed_export',
+                                     {'call': name, 'k': k,
+                                      'diff': first_diff(buf.getvalue(), again.getvalue())},
+                                     ['call:' + name])
+                res.probes.hit('retry_after_writer_fault_identical')
     # ---- export, rename, export: the text must not depend on what was exported before -------
     plainw = sorted((w['n'] for w in script['wires'] if w['k'] in 'WR'), key=str)
     if plainw and not any(n == 'output_to_firrtl' and not True for n, _f in calls):
